@@ -922,3 +922,84 @@ Proof.
   eapply only_edge_trans; [|eapply only_edge_trans; [exact C|apply only_edge_edges; reflexivity]].
   apply only_edge_edges. unfold w6. cbn [wedges upd_proc set]. simpl. rewrite B1, T1. reflexivity.
 Qed.
+
+(* ------------------------------------------------------------------ C09: splitter and combiner workers (their shared dispatch
+   of one flow item -- a content item or the pallet itself), FIRST_AVAILABLE, non-blocking *)
+Lemma check_state_shape w n :
+  let w' := check_state w n in
+  wedges w' = wedges w /\ witems w' = witems w /\ wlog w' = wlog w /\ wprocs w' = wprocs w /\ wk w' = wk w /\
+  ndisc (get_node w' n) = ndisc (get_node w n).
+Proof.
+  unfold check_state. destruct (count_threads (get_node w n)) as [a b].
+  assert (forall c, let w' := crashw w c in
+            wedges w' = wedges w /\ witems w' = witems w /\ wlog w' = wlog w /\ wprocs w' = wprocs w /\ wk w' = wk w /\
+            ndisc (get_node w' n) = ndisc (get_node w n)) as C.
+  { intros c. unfold crashw. destruct (wcrash w); repeat split; reflexivity. }
+  assert (forall st, let w' := update_state w n st in
+            wedges w' = wedges w /\ witems w' = witems w /\ wlog w' = wlog w /\ wprocs w' = wprocs w /\ wk w' = wk w /\
+            ndisc (get_node w' n) = ndisc (get_node w n)) as U.
+  { intros st. destruct (update_state_shape w n st) as (A1 & A2 & A3 & A4 & A5 & A6 & A7 & _). repeat split; assumption. }
+  destruct (_ >? _); [apply C|]. destruct (_ && _); [apply U|]. destruct (_ >? _); [apply U|]. destruct (_ =? _); [apply U|apply C].
+Qed.
+
+Theorem dispatch_nonblocking_drops w p n cur ph :
+  let nd := get_node w n in
+  noutsel nd = PFirst -> nblocking nd = false -> first_can_put w (nouts nd) = None -> (n < length (wnodes w))%nat ->
+  let w' := fst (sc_dispatch w p n cur ph) in
+  wedges w' = wedges w /\ witems w' = witems w /\
+  wlog w' = wlog w ++ [LDiscard (wnow w) n cur] /\
+  ndisc (get_node w' n) = S (ndisc nd) /\
+  length (wprocs w') = length (wprocs w) /\ wk w' = wk w.
+Proof.
+  intros nd SEL NB FC L. unfold sc_dispatch. fold nd. rewrite SEL, NB. cbv zeta.
+  set (w1 := upd_proc w p (fun x => x <| plst := [cur; ph] |>)).
+  assert (E1 : wedges w1 = wedges w) by reflexivity.
+  rewrite (first_can_put_edges w w1 _ E1), FC. cbn [fst].
+  repeat split.
+  - unfold setpc, logw, upd_node, upd_proc, w1. cbn [wnodes set]. simpl.
+    unfold get_node. cbn [wnodes set]. simpl. rewrite nth_upd_eq by exact L. reflexivity.
+  - unfold setpc, logw, upd_node, upd_proc, w1. cbn [wprocs set]. simpl. rewrite !upd_len. reflexivity.
+Qed.
+
+Theorem dispatch_nonblocking_pushes w p n cur ph e :
+  let nd := get_node w n in
+  noutsel nd = PFirst -> nblocking nd = false -> first_can_put w (nouts nd) = Some e -> is_buffer w e = true ->
+  (p < length (wprocs w))%nat ->
+  let w' := fst (sc_dispatch w p n cur ph) in
+  wedges w' = wedges w /\ witems w' = witems w /\ wlog w' = wlog w /\ ndisc (get_node w' n) = ndisc nd /\
+  (* one process more: the push of exactly this item to the first out-edge with room *)
+  length (wprocs w') = S (length (wprocs w)) /\
+  let q := nth (length (wprocs w)) (wprocs w') proc0 in
+  pkd q = KPush /\ pown q = n /\ pit q = cur /\ pix q = e /\ ppc q = 0%nat /\ palive q = true.
+Proof.
+  intros nd SEL NB FC IB LP. unfold sc_dispatch. fold nd. rewrite SEL, NB. cbv zeta.
+  set (w1 := upd_proc w p (fun x => x <| plst := [cur; ph] |>)).
+  assert (E1 : wedges w1 = wedges w) by reflexivity.
+  rewrite (first_can_put_edges w w1 _ E1), FC.
+  set (w2 := upd_proc w1 p (fun x => x <| pt1 := wnow w1 |>)).
+  destruct (check_state_shape w2 n) as (A1 & A2 & A3 & A4 & A5 & A6).
+  set (w3 := check_state w2 n) in *.
+  destruct (set_thread_shape w3 n p true) as (T1 & T2 & T3 & T4 & T5 & T6).
+  set (w4 := set_thread w3 n p true) in *.
+  destruct (check_state_shape w4 n) as (B1 & B2 & B3 & B4 & B5 & B6).
+  set (w5 := check_state w4 n) in *.
+  assert (IB5 : is_buffer w5 e = true).
+  { unfold is_buffer, get_edge in *. rewrite B1, T1, A1. exact IB. }
+  rewrite IB5. unfold spawn_push.
+  match goal with |- context [spawn ?a ?b] => pose proof (spawn_shape a b) as SS; destruct (spawn a b) as [[w6 pid] dn] end.
+  destruct SS as (S1 & S2 & S3 & S4 & S5 & dn' & S6). cbn [fst].
+  assert (ND1 : ndisc (get_node w2 n) = ndisc nd) by reflexivity.
+  assert (PR : wprocs w5 = upd p (fun x => x <| pt1 := wnow w1 |>) (upd p (fun x => x <| plst := [cur; ph] |>) (wprocs w))).
+  { rewrite B4, T4, A4. reflexivity. }
+  assert (LEN : length (wprocs w5) = length (wprocs w)) by (rewrite PR, !upd_len; reflexivity).
+  split; [cbn [wedges setpc upd_proc set]; simpl; rewrite S1, B1, T1, A1; reflexivity|].
+  split; [cbn [witems setpc upd_proc set]; simpl; rewrite S2, B2, T2, A2; reflexivity|].
+  split; [cbn [wlog setpc upd_proc set]; simpl; rewrite S3, B3, T3, A3; reflexivity|].
+  split.
+  { rewrite (get_node_nodes w6 (setpc w6 p 3) n) by reflexivity. rewrite (get_node_nodes w5 w6 n S4).
+    rewrite B6, T6, A6. exact ND1. }
+  cbn [wprocs setpc upd_proc set]. simpl. rewrite S6. rewrite upd_len, app_length, LEN. simpl.
+  split; [lia|].
+  assert (NE : p <> length (wprocs w)) by lia.
+  rewrite nth_upd_other by exact NE. rewrite app_nth2 by lia. rewrite LEN, Nat.sub_diag. cbn. repeat split; reflexivity.
+Qed.
